@@ -419,6 +419,12 @@ func dnWorkload() {
 		{{"CN", strings.Repeat("y", 65536)}, {"DC", "example"}, {"DC", "com"}},
 		{{"CN", "a"}, {"DC", strings.Repeat("d", 70000)}, {"DC", "com"}},
 		{{"OU", strings.Repeat("z", 4096)}, {"OU", strings.Repeat("w", 131072)}, {"DC", "tail"}},
+		// DC values holding octets that are not valid UTF-8 (a Latin-1 octet, a stray 0xFF / 0x80, a cut
+		// sequence, an encoded lone surrogate): the value is joined as it stands, octet for octet (C16-r10-1)
+		{{"CN", "u"}, {"DC", "caf\xe9"}, {"DC", "corp"}},
+		{{"DC", "\xff"}, {"DC", "x\x80y"}, {"DC", "com"}},
+		{{"CN", "u"}, {"DC", "ab\xc3"}, {"DC", "\xed\xa0\x80"}, {"DC", "\xe2\x82"}},
+		{{"CN", "caf\xe9"}, {"DC", "valid-\u00e9"}, {"DC", "\xf0\x9f\x98"}},
 	}
 	for i, d := range det {
 		for si, stl := range adStyles {
